@@ -290,4 +290,58 @@ class C18d(Obligation):
                   'the reported position is where the text is exactly the name')
 
 
-OBLIGATIONS = [C18a, C18b, C18c, C18d]
+import pathlib  # noqa: E402
+
+import jedi.api as japi  # noqa: E402
+
+
+class C18e(Obligation):
+    id = 'C18.e'
+    title = 'the module part of full_name is the dotted path of the file below the import root, also through directories without __init__.py (implicit namespace packages)'
+    pattern = 'P3 (Script._get_module with the real transform_path_to_dotted; the effective sys.path is a stub that honours add_parent_paths)'
+    assumptions = (
+        'the buffer lies d<=3 directories below the project root /proj (root on sys.path); each directory may lack '
+        '__init__.py (symbolic): the stubbed get_sys_path then appends that directory when asked to add parent paths, as '
+        'Project._get_sys_path does; ModuleValue and KnownContentFileIO are recording stubs',
+    )
+
+    def configs(self, tier):
+        return [dict(depth=d) for d in (0, 1, 2, 3)]
+
+    def scenario(self, ctx, cfg):
+        depth = cfg['depth']
+        dirs = ['pk%d' % i for i in range(depth)]
+        has_init = [ctx.flag('dir%d_has_init' % i) for i in range(depth)]
+        ctx.int('unused')
+        path = pathlib.Path('/proj/' + '/'.join(dirs + ['mod.py']))
+
+        def get_sys_path(add_parent_paths=True, add_init_paths=False):
+            sp = ['/usr/lib/python', '/proj']
+            if add_parent_paths:
+                # walk up from the buffer while the directory has no __init__.py (what _get_sys_path appends)
+                cur = []
+                for i in range(depth - 1, -1, -1):
+                    if has_init[i]:
+                        break
+                    cur.append('/proj/' + '/'.join(dirs[:i + 1]))
+                sp += cur
+            return sp
+        made = []
+        ctx.patch(japi, 'ModuleValue', lambda state, node, **kw: made.append(kw) or 'MODULE')
+        ctx.patch(japi, 'KnownContentFileIO', lambda p, code: ('file', p))
+        script = jedi.Script.__new__(jedi.Script)
+        script._pysym_holder = True
+        script.path = path
+        script._code = ''
+        script._module_node = None
+        script._code_lines = []
+        script._inference_state = Obj(get_sys_path=get_sys_path, module_cache=Obj(add=lambda names, v: None))
+        ctx.force(jedi.Script._get_module)
+        out = ctx.call(script._get_module)
+        ctx.check(out.exc is None and len(made) == 1, 'never raises')
+        if out.exc is None and len(made) == 1:
+            ctx.check(tuple(made[0]['string_names']) == tuple(dirs + ['mod']),
+                      'the module is named by its full dotted path below the root, whether or not the directories have __init__.py')
+
+
+OBLIGATIONS = [C18a, C18b, C18c, C18d, C18e]
